@@ -29,6 +29,7 @@ import (
 	"github.com/prometheus/alertmanager/alert"
 	"github.com/prometheus/alertmanager/app"
 	"github.com/prometheus/alertmanager/config"
+	"github.com/prometheus/alertmanager/dispatch"
 	"github.com/prometheus/alertmanager/featurecontrol"
 	"github.com/prometheus/alertmanager/notify"
 
@@ -59,6 +60,10 @@ type Options struct {
 	// Called (under the component's lock!) with the bytes handed to the broadcast function.
 	OnNflogBroadcast   func(in *Instance, b []byte)
 	OnSilenceBroadcast func(in *Instance, b []byte)
+
+	// Yield is called at the dispatcher's verif yield points (between critical sections); it may
+	// sleep (virtual time) to widen scheduling windows.
+	Yield func(point string, labels model.Labels)
 
 	Log    *Log   // shared event log (created when nil)
 	Script Script // decides the outcome of every delivery attempt (nil = always succeed)
@@ -249,7 +254,21 @@ func Start(o Options) (*Instance, error) {
 		return nil, err
 	}
 	in.hooks = &app.VerifHooks{
-		OnSetup:          func(vi *app.VerifInstance) { in.VI = vi },
+		OnSetup: func(vi *app.VerifInstance) {
+			in.VI = vi
+			if o.Yield != nil {
+				dispatch.VerifSetYield(vi.Alerts, func(point string, a *alert.Alert) {
+					var l model.Labels
+					if a != nil {
+						l = model.Labels{}
+						for k, v := range a.Labels {
+							l[string(k)] = string(v)
+						}
+					}
+					o.Yield(point, l)
+				})
+			}
+		},
 		WrapIntegrations: in.wrap,
 		WaitFunc:         o.WaitFunc,
 		Peer:             o.Peer,
@@ -300,6 +319,12 @@ func (in *Instance) Stop() {
 	}
 	in.stopped = true
 	in.App.Stop(context.Background())
+	if in.Opts.Yield != nil {
+		dispatch.VerifSetYield(in.VI.Alerts, nil)
+		// aggregation-group goroutines are not awaited by Dispatcher.Stop; let those that sit in a
+		// (non-interruptible) yield sleep run out before the bubble ends
+		time.Sleep(10 * time.Second)
+	}
 	in.Log.Add(Event{T: time.Now(), Kind: "stop", Instance: in.Name})
 }
 
